@@ -1,4 +1,4 @@
-"""C09 Syntax errors."""
+"""C09 Syntax errors: always terminate, never accept silently, blame the right token."""
 import common
 import lrcommon
 
@@ -8,12 +8,12 @@ LEVEL = "proof"
 def run(r):
     r.require_theorems(1)
     r.run_witnesses()
-    lrcommon.run_lr(r, "C09", also= terminate, never accept silently, blame the right token:())
+    lrcommon.run_lr(r, "C09", also=("C12",))
     r.assumptions += [
-        "per generated grammar the theorem quantifies over all token sequences; the space of grammars is sampled by the generator",
-        "the item-set certificate and the grammar come from an in-process run of the real front end + ConstructLALR; the arrays from the file the real generator wrote",
+        "per generated grammar the theorems quantify over all token sequences (including lexer ERROR tokens); the space of grammars is sampled by the generator",
+        "the model of parse/_recover (Lox/LR/Model.lean) is tied to compiled generated parsers on every run, including recovery paths and Error.Expected lists",
+        "partial: termination of reduce chains and recovery are proved separately (tables_terminate, recoveries_bounded); soundness of runs WITH recovery and the correct-prefix property of the first Error are stated _partial (see DESIGN.md C09)",
     ]
-    return r.finish(LEVEL, "Lean: validator soundness theorems (accept <-> derivation, unique tree, post-order actions, bounds invariant) + runtime model; "
-                    "tie: validator run on every emitted table, compiled generated parsers vs the runtime model, property oracle on every run",
+    return r.finish(LEVEL, "Lean: recover_result, recover_progress, recoveries_bounded, recover_terminates, no_silent_accept_partial, error_tracked, error_delivered_partial over the model of parse/_recover for arbitrary tables; "
+                    "tables_decide/parse_no_panic for error-free runs; tie: compiled generated parsers vs the model on all token strings up to a length incl. ERROR tokens, budgeted runs (a hang is an observation)",
                     common.TRUSTED_COMMON)
-
